@@ -1,5 +1,20 @@
-"""code -> spec for C06 (filled in below once the trace spec exists)."""
+"""code -> spec for C06: recorded collect_expression traces validated by spec/CollectTrace.tla."""
+from . import collect_trace, qc_common
 
 
 def validate(run, sc, tier):
-    return
+    from symplyphysics.core.dimensions import collect_expression_and_dimension
+    from . import c06
+    merged = collect_trace.record_tests(sc, tier, run.seed)
+    run.coverage["recorder"] = {k: merged[k] for k in ("events", "files", "pytest_rc", "pytest_tail", "dropped")}
+    if merged["pytest_rc"] != 0:
+        run.outside(f"pytest under the recorder ended with rc={merged['pytest_rc']} (not this property's verdict)")
+    collect_trace.validate_traces(run, sc, merged["traces"], "e", "tests")
+    cases = getattr(run, "cases_for_traces", [])
+    if c06._L is None:      # `python -m harness.c06` runs the module as __main__: this is a second instance
+        c06._init()
+    prog = collect_trace.record_programs(cases, lambda c: qc_common.build(c["p"], c06._L, False),
+                                         collect_expression_and_dimension, 4000 if tier == "quick" else 40000, run.seed)
+    for k, v in prog["dropped"].items():
+        run.outside(f"recorder: {k}", v)
+    collect_trace.validate_traces(run, sc, prog["traces"], "e", "programs")
